@@ -43,7 +43,7 @@ def _distinct(pid, events):
 def run(pid, tier):
     def body(chk):
         thorough = tier == "thorough"
-        vlib.harness_build()
+        vlib.harness_build("vh_merkle")
         # ---- Leg M (+ generator for Leg R) ----
         maxlen = 6 if thorough else 5
         dump = os.path.join(vlib.WORK, "%s_mc.out" % pid)
